@@ -23,6 +23,8 @@ type SEv struct {
 	Flush     *spb.FlushRequest
 	Get       *spb.GetRequest
 	GetFail   int
+	// cutmid: the client disappears after J responses of the batch Req got through
+	J int
 }
 
 type SrvGenCfg struct {
@@ -457,6 +459,17 @@ func RunSrvHistory(name string, cfg *SrvGenCfg, evs []SEv) (*Trace, error) {
 					in = e.MsgKind
 				}
 				t.Add("srv.msg %d %s => %s", e.C, in, encOutcome(o))
+				hang = o.Hang
+			case "cutmid":
+				if f := h.sess[e.C]; f == nil || f.ended {
+					return
+				}
+				o := h.CutMid(e.C, e.Req, e.J, e.CloseMode)
+				parts := []string{fmt.Sprintf("%d", len(e.Req.GetOperation()))}
+				for _, op := range e.Req.GetOperation() {
+					parts = append(parts, Describe(op, "").Enc())
+				}
+				t.Add("srv.cutmid %d %d %s %s => %s", e.C, e.J, e.CloseMode, strings.Join(parts, " ; "), encOutcome(o))
 				hang = o.Hang
 			case "flush":
 				var name *string
